@@ -5,6 +5,7 @@ CONSTANTS
   MaxChecks = 2
   FTags <- FieldTags
   CTags <- CheckTags
+  ExamplesJudgedWhenComplete = TRUE
   Decorations <- AllDeco
 INVARIANT TypeOK
 INVARIANT AcceptedIffSound
